@@ -115,8 +115,25 @@ fn label_of(id: &Id) -> u64 {
 const TAG_DATA: u8 = 0xD1;
 const TAG_TREE: u8 = 0x7E;
 
-fn ts(secs: i64) -> rustic_core::jiff::Timestamp {
-    rustic_core::jiff::Timestamp::from_second(secs).unwrap()
+/// Time stamps of the op lines are ONE integer per stamp (the model's `Option Int`): `seconds + (nanoseconds << 32)` with
+/// `0 <= seconds < 2^32`, `0 <= nanoseconds < 10^9` — an injective encoding of the full (second, nanosecond) pair, so
+/// "equal integers" on the model side is "equal to the nanosecond" on the real side.  Plain small values (every op line written
+/// before the sub-second generators existed) are whole seconds.
+pub const NS_SHIFT: u32 = 32;
+pub fn stamp(secs: i64, nanos: u32) -> i64 {
+    secs + (i64::from(nanos) << NS_SHIFT)
+}
+pub fn stamp_secs(v: i64) -> i64 {
+    v & ((1i64 << NS_SHIFT) - 1)
+}
+pub fn stamp_nanos(v: i64) -> i32 {
+    (v >> NS_SHIFT) as i32
+}
+pub fn ts(v: i64) -> rustic_core::jiff::Timestamp {
+    if v < 0 {
+        return rustic_core::jiff::Timestamp::from_second(v).unwrap();
+    }
+    rustic_core::jiff::Timestamp::new(stamp_secs(v), stamp_nanos(v)).unwrap()
 }
 
 fn real_node(n: &N) -> Node {
@@ -283,10 +300,14 @@ fn exec_proc(flags: &str, index: &str, store: &str, roots: &str, items: &str) ->
 
 const NAMES: [&[u8]; 12] = [b"a", b"b", b"c", b"ab", b"a.b", b"a\xff", b"B", b"d", b"e", b"", b"zz", b"a/"];
 
+const PROC_NS: [u32; 4] = [0, 0, 1, 999_999_999];
+
 fn gen_meta(rng: &mut Rng) -> (u64, Option<i64>, Option<i64>, u64) {
     let size = *rng.pick(&[0u64, 1, 5, 5, 64, 100]);
-    let mtime = if rng.chance(1, 12) { None } else { Some(1000 + rng.below(3) as i64) };
-    let ctime = if rng.chance(1, 8) { None } else { Some(2000 + rng.below(3) as i64) };
+    // full (second, nanosecond) stamps: few seconds x few sub-second parts, so that stamps equal to the nanosecond, differing only
+    // in the nanoseconds and differing only in the seconds all occur between a node and its parent node
+    let mtime = if rng.chance(1, 12) { None } else { Some(stamp(1000 + rng.below(3) as i64, *rng.pick(&PROC_NS))) };
+    let ctime = if rng.chance(1, 8) { None } else { Some(stamp(2000 + rng.below(3) as i64, *rng.pick(&PROC_NS))) };
     let inode = rng.below(3);
     (size, mtime, ctime, inode)
 }
@@ -346,7 +367,13 @@ fn mutate(rng: &mut Rng, n: &N, stats: &mut Stats) -> N {
     m.subtree = None;
     match rng.below(12) {
         0 => {
-            m.mtime = Some(1000 + rng.below(4) as i64);
+            m.mtime = Some(match (n.mtime, rng.below(3)) {
+                (Some(t), 0) => {
+                    stats.hit("c11.mut.mtime-nanoseconds-only");
+                    stamp(stamp_secs(t), (stamp_nanos(t) as u32 + *rng.pick(&[1u32, 1000, 500_000_000])) % 1_000_000_000)
+                }
+                _ => stamp(1000 + rng.below(4) as i64, *rng.pick(&PROC_NS)),
+            });
             stats.hit("c11.mut.mtime");
         }
         1 => {
@@ -354,7 +381,13 @@ fn mutate(rng: &mut Rng, n: &N, stats: &mut Stats) -> N {
             stats.hit("c11.mut.size");
         }
         2 => {
-            m.ctime = Some(2000 + rng.below(4) as i64);
+            m.ctime = Some(match (n.ctime, rng.below(3)) {
+                (Some(t), 0) => {
+                    stats.hit("c11.mut.ctime-nanoseconds-only");
+                    stamp(stamp_secs(t), (stamp_nanos(t) as u32 + *rng.pick(&[1u32, 1000, 500_000_000])) % 1_000_000_000)
+                }
+                _ => stamp(2000 + rng.below(4) as i64, *rng.pick(&PROC_NS)),
+            });
             stats.hit("c11.mut.ctime");
         }
         3 => {
@@ -691,7 +724,7 @@ fn reads_back_as(h: &RepoHandle, snap: &rustic_core::repofile::SnapshotFile, src
             K::Link(t) => ("symlink", None, Some(t.clone())),
             K::Other(_) => ("other", None, None),
         };
-        exp.push((p, k.into(), c, l, Some(e.mtime)));
+        exp.push((p, k.into(), c, l, Some(stamp_secs(e.mtime))));
     }
     let mut gotv: Vec<_> = got.into_iter().map(|r| (r.path, r.kind, r.content, r.link, r.mtime_s)).collect();
     gotv.sort();
@@ -943,7 +976,13 @@ pub fn mutate_children(rng: &mut Rng, ch: &[(Vec<u8>, T)], depth: u32, inode: &m
                 }
                 75..=84 => {
                     stats.hit("c11.e2e.type-change");
-                    Some(T::File { content: gen_content(rng), mtime: *mtime, ctime: *ctime, inode: *ino })
+                    if rng.chance(1, 3) {
+                        stats.hit("c11.e2e.type-change.symlink-to-dir");
+                        *inode += 1;
+                        Some(T::Dir { children: gen_children(rng, 0, inode), mtime: *mtime, ctime: *ctime, inode: *ino })
+                    } else {
+                        Some(T::File { content: gen_content(rng), mtime: *mtime, ctime: *ctime, inode: *ino })
+                    }
                 }
                 85..=92 => None,
                 _ => Some(T::Link { target: target.clone(), mtime: mtime + 1, ctime: *ctime, inode: *ino }),
@@ -955,7 +994,12 @@ pub fn mutate_children(rng: &mut Rng, ch: &[(Vec<u8>, T)], depth: u32, inode: &m
                 }
                 80..=87 => {
                     stats.hit("c11.e2e.type-change");
-                    Some(T::File { content: gen_content(rng), mtime: *mtime, ctime: *ctime, inode: *ino })
+                    if rng.chance(1, 3) {
+                        stats.hit("c11.e2e.type-change.dir-to-symlink");
+                        Some(T::Link { target: b"t".to_vec(), mtime: *mtime, ctime: *ctime, inode: *ino })
+                    } else {
+                        Some(T::File { content: gen_content(rng), mtime: *mtime, ctime: *ctime, inode: *ino })
+                    }
                 }
                 88..=93 => {
                     stats.hit("c11.e2e.remove");
@@ -992,6 +1036,46 @@ fn dir_paths(children: &[(Vec<u8>, T)], prefix: &[Vec<u8>], out: &mut Vec<Vec<Ve
     }
 }
 
+/// Give the time stamps of a generated history a sub-second part (2 of 3 histories).  Every path gets one pair of base nanoseconds
+/// (added to its mtime / ctime in the parents and in B alike, so equal stamps stay equal and different ones different); then every
+/// stamp of B (and of the second parent) that differs from the first parent's stamp of the same path is, with probability 1/2, moved
+/// into the SAME second as the parent's: the two differ only in their nanoseconds (by 1 ns … half a second).  The model compares the
+/// stamps as integers (`c11::stamp` is injective), i.e. to the nanosecond.
+fn subsecond_pass(rng: &mut Rng, fa: &mut [SE], fa2: &mut [SE], fb: &mut [SE], stats: &mut Stats) {
+    if rng.chance(1, 3) {
+        return;
+    }
+    const NS: [u32; 6] = [0, 1, 999_999_999, 500_000_000, 123_456_789, 999_999_000];
+    let mut base: BTreeMap<Vec<Vec<u8>>, (u32, u32)> = BTreeMap::new();
+    for e in fa.iter().chain(fa2.iter()).chain(fb.iter()) {
+        if !base.contains_key(&e.path) {
+            _ = base.insert(e.path.clone(), (*rng.pick(&NS), *rng.pick(&NS)));
+        }
+    }
+    for e in fa.iter_mut().chain(fa2.iter_mut()).chain(fb.iter_mut()) {
+        let (nm, nc) = base[&e.path];
+        e.mtime = stamp(e.mtime, nm);
+        e.ctime = stamp(e.ctime, nc);
+    }
+    let parent: BTreeMap<Vec<Vec<u8>>, (i64, i64)> = fa.iter().map(|e| (e.path.clone(), (e.mtime, e.ctime))).collect();
+    let mut near = |rng: &mut Rng, p: i64| -> i64 {
+        let d = *rng.pick(&[1u32, 1, 1000, 1_000_000, 500_000_000, 999_999_999]);
+        stamp(stamp_secs(p), (stamp_nanos(p) as u32 + d) % 1_000_000_000)
+    };
+    for e in fa2.iter_mut().chain(fb.iter_mut()) {
+        if let Some((pm, pc)) = parent.get(&e.path) {
+            if e.mtime != *pm && rng.chance(1, 2) {
+                e.mtime = near(rng, *pm);
+                stats.hit("c11.e2e.mtime-differs-in-nanoseconds-only");
+            }
+            if e.ctime != *pc && rng.chance(1, 2) {
+                e.ctime = near(rng, *pc);
+                stats.hit("c11.e2e.ctime-differs-in-nanoseconds-only");
+            }
+        }
+    }
+}
+
 fn gen_e2e(rng: &mut Rng, stats: &mut Stats) -> String {
     let mut inode = 10;
     let a = gen_children(rng, 2, &mut inode);
@@ -1004,6 +1088,7 @@ fn gen_e2e(rng: &mut Rng, stats: &mut Stats) -> String {
         flatten(a2, &[], &mut fa2);
     }
     flatten(&b, &[], &mut fb);
+    subsecond_pass(rng, &mut fa, &mut fa2, &mut fb, stats);
     let mut labels: BTreeSet<u64> = fa.iter().chain(fa2.iter()).flat_map(|e| e.content.iter().copied()).collect();
     let rm_mode = rng.below(4);
     labels.retain(|_| rm_mode >= 2 && rng.chance(1, 4));
@@ -1064,6 +1149,41 @@ fn directed_e2e(ops: &mut Vec<String>, stats: &mut Stats) {
         for b in &edits {
             ops.push(format!("c11 e2e {flags} x {} - - - {}", enc(&a), enc(b)));
             stats.hit("c11.e2e.directed.content+ctime-only");
+        }
+    }
+    // sub-second border: a file rewritten in place with the same size WITHIN THE SAME SECOND as the recorded write — mtime (and
+    // ctime) differ from the parent's only in their nanoseconds (+1 ns, -1 ns, across .999999999); also the converse (equal
+    // nanoseconds, next second) and a stamp equal to the nanosecond with unchanged content (must be reused, not read).
+    {
+        let filet = |content: &[u64], mtime: i64, ctime: i64, inode: u64| T::File { content: content.to_vec(), mtime, ctime, inode };
+        let treet = |f: T, h: T| -> Vec<(Vec<u8>, T)> {
+            vec![
+                (b"a".to_vec(), filet(&[1], stamp(100, 5), stamp(200, 5), 11)),
+                (b"d".to_vec(), T::Dir { children: vec![(b"h".to_vec(), h)], mtime: stamp(100, 7), ctime: stamp(200, 7), inode: 13 }),
+                (b"f".to_vec(), f),
+            ]
+        };
+        for (n0, n1) in [(0u32, 1u32), (5, 4), (999_999_998, 999_999_999), (250_000_000, 750_000_000)] {
+            let (m0, c0) = (stamp(100, n0), stamp(200, n0));
+            let a = treet(filet(&[1, 2, 3], m0, c0, 12), filet(&[5, 6, 507], m0, c0, 14));
+            let edits = [
+                // mtime and ctime move within their second
+                treet(filet(&[21, 22, 23], stamp(100, n1), stamp(200, n1), 12), filet(&[5, 6, 507], m0, c0, 14)),
+                // only the mtime moves within its second (ctime equal to the nanosecond)
+                treet(filet(&[1, 2, 3], m0, c0, 12), filet(&[25, 26, 557], stamp(100, n1), c0, 14)),
+                // only the ctime moves within its second
+                treet(filet(&[21, 22, 23], m0, stamp(200, n1), 12), filet(&[25, 26, 557], m0, stamp(200, n1), 14)),
+                // next second, equal nanoseconds
+                treet(filet(&[21, 22, 23], stamp(101, n0), stamp(201, n0), 12), filet(&[5, 6, 507], m0, c0, 14)),
+                // nothing changed: equal to the nanosecond
+                a.clone(),
+            ];
+            for flags in ["000", "100", "010", "001"] {
+                for b in &edits {
+                    ops.push(format!("c11 e2e {flags} x {} - - - {}", enc(&a), enc(b)));
+                    stats.hit("c11.e2e.directed.sub-second-stamps");
+                }
+            }
         }
     }
     // index border: B = A, some chunks of the parent's files no longer indexed
